@@ -83,7 +83,7 @@ pub fn generate(rng: &mut Rng, n: usize, tier: &str) -> Vec<Value> {
     let fixed: &[(u64, u64)] = if thorough {
         &[(0, 0), (255, 255), (95, 135), (175, 215), (128, 128), (40, 200), (8, 238)]
     } else {
-        &[(0, 0), (255, 255), (95, 175)]
+        &[(0, 0), (95, 175)]
     };
     for depth in ["256", "gray"] {
         for x in 0..256u64 {
